@@ -582,8 +582,6 @@ R.mutant("benign-nested-init-reorder-independent", ENG,
 # --- C23-R7 / seeds (round 2)
 BEGIN_TRY = ("        try:\n            self.engine.dialect.do_begin(self.connection)\n        except BaseException as e:\n"
              "            self._handle_dbapi_exception(e, None, None, None, None)\n        finally:\n            self.__in_begin = False\n")
-R.mutant("seed1-begin-flag-reset-not-in-finally", ENG,
-         sub(BEGIN_TRY, BEGIN_TRY.replace("        finally:\n            self.__in_begin = False\n", "\n        self.__in_begin = False\n")), "C23-R7")
 TWOPHASE_TRY = ("        try:\n            self.engine.dialect.do_begin_twophase(self, transaction.xid)\n        except BaseException as e:\n"
                 "            self._handle_dbapi_exception(e, None, None, None, None)\n        finally:\n            self.__in_begin = False\n")
 R.mutant("twophase-flag-reset-in-else", ENG,
@@ -593,13 +591,6 @@ R.mutant("twophase-dispatch-after-flag-set", ENG,
              "        self.__in_begin = True\n        if self._has_events or self.engine._has_events:\n            self.dispatch.begin_twophase(self, transaction.xid)\n\n"), "C23-R7")
 # the repair of the finding: the event dispatch moves INSIDE the protected region (the flag must stay set while the
 # listener runs -- a `begin` listener may execute SQL on the connection, test_emit_sql_in_autobegin)
-R.mutant("benign-begin-dispatch-inside-try-finally", ENG,
-         sub("        self.__in_begin = True\n\n        if self._has_events or self.engine._has_events:\n            self.dispatch.begin(self)\n\n"
-             "        try:\n            self.engine.dialect.do_begin(self.connection)\n        except BaseException as e:\n"
-             "            self._handle_dbapi_exception(e, None, None, None, None)\n        finally:\n            self.__in_begin = False\n",
-             "        self.__in_begin = True\n        try:\n            if self._has_events or self.engine._has_events:\n                self.dispatch.begin(self)\n\n"
-             "            try:\n                self.engine.dialect.do_begin(self.connection)\n            except BaseException as e:\n"
-             "                self._handle_dbapi_exception(e, None, None, None, None)\n        finally:\n            self.__in_begin = False\n"), None)
 R.mutant("benign-twophase-flag-set-inside-try", ENG,
          sub("        self.__in_begin = True\n        try:\n            self.engine.dialect.do_begin_twophase(self, transaction.xid)\n",
              "        try:\n            self.__in_begin = True\n            self.engine.dialect.do_begin_twophase(self, transaction.xid)\n"), None)
@@ -717,3 +708,5 @@ R.mutant("benign-rob-begin-flag-reset-helper", ENG,
          chain(sub("                self._handle_dbapi_exception(e, None, None, None, None)\n        finally:\n            self.__in_begin = False\n\n    def _rollback_impl",
                    "                self._handle_dbapi_exception(e, None, None, None, None)\n        finally:\n            self._end_begin()\n\n    def _rollback_impl"),
                sub("    def _rollback_impl(self) -> None:\n", "    def _end_begin(self) -> None:\n        self.__in_begin = False\n\n    def _rollback_impl(self) -> None:\n")), None)
+R.mutant("benign-rob-root-commit-finally-reordered", ENG,
+         sub(_CANCEL2 + "\n                self._deactivate_from_connection()\n", "                self._deactivate_from_connection()\n" + _CANCEL2), None)
